@@ -182,3 +182,32 @@ pub mod vxq {
     }
 }
 
+
+// ---- main.rs protocol ----------------------------------------------------------------------------------------------
+pub mod vxm {
+    use vstd::prelude::*;
+    verus! {
+    /// res: None = run() not called yet; Some(None) = it returned Err; Some(Some(c)) = it returned Ok(c)
+    pub ghost struct MS { pub res: Option<Option<i32>>, pub said: bool }
+    #[verifier::external_body]
+    pub fn new_ms() -> (r: Ghost<MS>) ensures r@ == (MS { res: None, said: false }) { Ghost::assume_new() }
+    /// stands for n2::run::run()
+    #[verifier::external_body]
+    pub fn run(g: &mut Ghost<MS>) -> (r: crate::anyhow::Result<i32>)
+        requires old(g)@.res is None
+        ensures final(g)@ == (MS { res: Some(match r { Ok(c) => Some(c), Err(_) => None }), ..old(g)@ })
+    { unimplemented!() }
+    /// println!("n2: error: {}", err): exactly when run() failed
+    #[verifier::external_body]
+    pub fn say_error(g: &mut Ghost<MS>)
+        requires old(g)@.res == Some(None::<i32>), !old(g)@.said
+        ensures final(g)@ == (MS { said: true, ..old(g)@ })
+    { unimplemented!() }
+    /// std::process::exit(code): only with a non-zero status, which is run()'s code or 1 after the error was printed
+    #[verifier::external_body]
+    pub fn exit(g: &Ghost<MS>, code: i32)
+        requires code != 0, (match g@.res { Some(Some(c)) => code == c, Some(None) => code == 1 && g@.said, None => false })
+        ensures false   // process::exit does not return
+    { unimplemented!() }
+    }
+}
